@@ -59,6 +59,7 @@ type fGroup struct {
 type fCase struct {
 	Kind   string   `json:"kind"` // idx | idb | pw | gr | idxr | idbr | base | pwr | grr
 	Pkgs   []fPkg   `json:"pkgs,omitempty"`
+	Pkgs2  []fPkg   `json:"pkgs2,omitempty"` // idxseq: the second index, written before the first is read
 	IPkgs  []fIPkg  `json:"ipkgs,omitempty"`
 	Users  []fUser  `json:"users,omitempty"`
 	Groups []fGroup `json:"groups,omitempty"`
@@ -281,6 +282,58 @@ func goIdxRW(ps []fPkg) string {
 	return hx(text) + "|" + wPkgs(idx.Packages) + "|" + hx(text2)
 }
 
+// goIdxSeq: every index is written (ArchiveFromIndex) before any of the returned readers is read
+func goIdxSeq(lists [][]fPkg) []string {
+	readers := make([]io.Reader, len(lists))
+	errs := make([]error, len(lists))
+	for i, ps := range lists {
+		real := make([]*apk.Package, len(ps))
+		for j, p := range ps {
+			real[j] = p.real()
+		}
+		readers[i], errs[i] = apk.ArchiveFromIndex(&apk.APKIndex{Packages: real, Description: "verif"})
+	}
+	outs := make([]string, len(lists))
+	for i := range lists {
+		if errs[i] != nil {
+			outs[i] = "werr"
+			continue
+		}
+		arch, err := io.ReadAll(readers[i])
+		if err != nil {
+			outs[i] = "werr"
+			continue
+		}
+		text := ""
+		if zr, err := gzip.NewReader(bytes.NewReader(arch)); err == nil {
+			tr := tar.NewReader(zr)
+			for {
+				h, err := tr.Next()
+				if err != nil {
+					break
+				}
+				if h.Name == "APKINDEX" {
+					b, _ := io.ReadAll(tr)
+					text = string(b)
+					break
+				}
+			}
+		}
+		idx, err := apk.IndexFromArchive(io.NopCloser(bytes.NewReader(arch)))
+		if err != nil {
+			outs[i] = hx(text) + "|err"
+			continue
+		}
+		text2, _, err := indexText(idx.Packages)
+		if err != nil {
+			outs[i] = hx(text) + "|" + wPkgs(idx.Packages) + "|werr"
+			continue
+		}
+		outs[i] = hx(text) + "|" + wPkgs(idx.Packages) + "|" + hx(text2)
+	}
+	return outs
+}
+
 func newAPK() (*apk.APK, apkfs.FullFS) {
 	fsys := apkfs.NewMemFS()
 	if err := fsys.MkdirAll("lib/apk/db", 0o755); err != nil {
@@ -332,6 +385,12 @@ func goIdbRW(ips []fIPkg) idbOut {
 		o.werr = true
 		return o
 	}
+	return idbOutOfText(text)
+}
+
+// idbOutOfText: read a db text back and write it again
+func idbOutOfText(text string) idbOut {
+	var o idbOut
 	o.text = text
 	parsed, err := apk.ParseInstalled(strings.NewReader(text))
 	if err != nil {
@@ -502,6 +561,48 @@ func (formatsSuite) Run(raw json.RawMessage) []Step {
 				st.Tags = tags
 			}
 			steps = append(steps, st)
+		}
+		return steps
+	case "idxseq":
+		// write index A, write index B, and only then read A (and B) back: a writer must not hand out
+		// a reader over storage that a later write reuses
+		outs := goIdxSeq([][]fPkg{c.Pkgs, c.Pkgs2})
+		var steps []Step
+		for i, ps := range [][]fPkg{c.Pkgs, c.Pkgs2} {
+			steps = append(steps, Step{Line: "f.idx.rw\t" + wirePkgsIn(ps), Go: outs[i], Desc: fmt.Sprintf("index %d of a write-write-read sequence: %s", i, short(descPkgs(ps))),
+				Tags: []string{"idx.seq"}, Trivial: strings.HasSuffix(outs[i], "err")})
+		}
+		return steps
+	case "idbseq":
+		// AddInstalledPackage for every package in turn, carrying on after a failed add: a failed add must leave
+		// the db as it was; the db read back must be exactly the successfully added packages
+		a, fsys := newAPK()
+		var okPkgs []fIPkg
+		failed := 0
+		for _, ip := range c.IPkgs {
+			var hs []tar.Header
+			for _, f := range ip.Files {
+				hs = append(hs, f.real())
+			}
+			if err := a.AddInstalledPackage(ip.Pkg.real(), hs); err != nil {
+				failed++
+				continue
+			}
+			okPkgs = append(okPkgs, ip)
+		}
+		text := ""
+		if b, err := fsys.ReadFile("lib/apk/db/installed"); err == nil {
+			text = string(b)
+		}
+		o := idbOutOfText(text)
+		if len(okPkgs) == 0 && text == "" {
+			return []Step{{Line: "f.idb.rw\tpkg\t", Go: o.view("pkg"), Desc: "installed-db sequence in which every add failed", Tags: []string{"idb.seq:all-failed"}, Trivial: true}}
+		}
+		wire := wireIPkgsIn(okPkgs)
+		var steps []Step
+		for _, asp := range []string{"pkg", "files", "text2"} {
+			steps = append(steps, Step{Line: "f.idb.rw\t" + asp + "\t" + wire, Go: o.view(asp), Desc: fmt.Sprintf("installed-db after a sequence of adds (%d failed) (%s) of %s", failed, asp, short(descIPkgs(okPkgs))),
+				Tags: []string{fmt.Sprintf("idb.seq:failed%d", minInt(failed, 2))}, Trivial: o.rerr})
 		}
 		return steps
 	case "pw":
